@@ -15,7 +15,7 @@ import re
 import string
 
 from .core import AnalysisError
-from .astutil import dotted
+from .astutil import dotted, walk_no_nested
 from .pathwalk import Walker, PathState, show, is_const, C
 
 EXIT_CALLS = {'sys.exit', 'exit', 'quit', 'os._exit'}
@@ -65,6 +65,14 @@ class CliWalker(Walker):
                     parts.append(('opaque', ast.dump(v)))
             return ('fstr', tuple(parts))
         return super().sym(node, st)
+
+    def inline_target(self, call, st):
+        # a generator function is not a function that returns None: its call stays an opaque value (the body runs when and as
+        # far as the consumer iterates)
+        fn = super().inline_target(call, st)
+        if fn is not None and any(isinstance(n, (ast.Yield, ast.YieldFrom)) for n in walk_no_nested(fn)):
+            return None
+        return fn
 
     def decide(self, test, st):
         d = super().decide(test, st)
@@ -117,6 +125,9 @@ _PCT = re.compile(r'%(?:\((\w+)\))?[#0\- +]*(\*|\d+)?(?:\.(\*|\d+))?[hlL]?([diou
 
 def _merge(ps):
     out = []
+    # a module-level string constant used as a piece (NEWLINE, a suffix) is literal text
+    ps = [('lit', MODULE_CONSTS[p[1][1]]) if p[0] == 'val' and isinstance(p[1], tuple) and p[1][:1] == ('name',) and isinstance(MODULE_CONSTS.get(p[1][1]), str) else p
+          for p in ps]
     for p in ps:
         if p[0] == 'lit' and out and out[-1][0] == 'lit':
             out[-1] = ('lit', out[-1][1] + p[1])
@@ -127,12 +138,28 @@ def _merge(ps):
     return out
 
 
+MODULE_CONSTS = {}          # module-level constants of the analysed file (set by CliModel): NEWLINE = '\\n', HEX_SUFFIX = '.hex'
+
+PATH_IDENTITIES = {'os.path.abspath', 'os.path.realpath', 'os.path.normpath', 'os.fspath', 'str', 'os.path.normcase'}
+
+
+def same_file(v):
+    """The path expression with wrappers removed that still name the same file (the process never changes its working
+    directory): abspath / realpath / normpath / fspath / str."""
+    v = strip(v)
+    while isinstance(v, tuple) and v and v[0] == 'call' and v[1] in PATH_IDENTITIES and len(v[2]) == 1 and not v[3]:
+        v = strip(v[2][0])
+    return v
+
+
 def pieces(v):
     """A string-valued expression as a sequence of ('lit', text) / ('val', symbolic value) pieces (str.format, %-formatting,
     f-strings, concatenation, str()/hex()/format()), or None when its shape is not understood."""
     v = strip(v)
     if not isinstance(v, tuple) or not v:
         return None
+    if v[0] == 'name' and isinstance(MODULE_CONSTS.get(v[1]), str):
+        return [('lit', MODULE_CONSTS[v[1]])]
     if is_const(v):
         return [('lit', v[1])] if isinstance(v[1], str) else [('val', v)]
     k = v[0]
@@ -217,7 +244,7 @@ def pieces(v):
         if a is None or b is None:
             return None
         return _merge(a + b)
-    if k == 'call' and v[1] in ('str', 'hex', 'repr', 'format', 'oct', 'bin', 'ascii'):
+    if k == 'call' and (v[1] in ('str', 'hex', 'repr', 'format', 'oct', 'bin', 'ascii') or v[1] in PATH_IDENTITIES):
         return [('val', v)]
     if k in ('var', 'havoc', 'name', 'attr', 'sub', 'unpack'):
         return [('val', v)]
@@ -247,15 +274,37 @@ def shallow_terms(v, pred, out=None, top=True):
 
 # -- events -------------------------------------------------------------------------------------------------------------------
 def open_mode(v):
-    """(path value, mode text or None) of an open(...) call value."""
+    """(path value, mode text or None) of an open(...) call value.  os.fdopen(os.open(path, flags), mode) is the open of `path`;
+    what happens to an existing file is decided by the flags: without O_TRUNC nothing is cut off, so a 'w' mode behaves like 'r+'
+    (write from the start, keep what lies behind)."""
+    fd = _fd_open(v)
+    if fd is not None:
+        mode = strip(v[2][1] if len(v[2]) > 1 else dict(v[3]).get('mode', C('r')))
+        text = mode[1] if is_const(mode) and isinstance(mode[1], str) else None
+        flags = fd[2][1]
+        flag = lambda name: contains(flags, ('attr', ('name', 'os'), name))
+        if text is not None and 'w' in text and not flag('O_TRUNC'):
+            text = text.replace('w', 'r+')
+        if text is not None and flag('O_APPEND') and 'a' not in text:
+            text = text.replace('w', 'a').replace('r+', 'a')
+        return fd[2][0], text
     mode = v[2][1] if len(v[2]) > 1 else dict(v[3]).get('mode', C('r'))
     path = v[2][0] if v[2] else dict(v[3]).get('file')
     mode = strip(mode)
     return path, (mode[1] if is_const(mode) and isinstance(mode[1], str) else None)
 
 
+def _fd_open(v):
+    """the os.open(path, flags[, mode]) call behind os.fdopen(<fd>, ...), else None"""
+    if isinstance(v, tuple) and v and v[0] == 'call' and v[1] == 'os.fdopen' and v[2]:
+        fd = strip(v[2][0])
+        if isinstance(fd, tuple) and fd and fd[0] == 'call' and fd[1] == 'os.open' and len(fd[2]) >= 2:
+            return fd
+    return None
+
+
 def is_open(v):
-    return isinstance(v, tuple) and v and v[0] == 'call' and v[1] in ('open', 'io.open', 'builtins.open')
+    return isinstance(v, tuple) and v and v[0] == 'call' and (v[1] in ('open', 'io.open', 'builtins.open') or _fd_open(v) is not None)
 
 
 def writes(mode):
@@ -290,6 +339,7 @@ class PathEvents:
         withs = {}              # id(With node) -> [OPEN events]
         loops = []              # stack of (LOOP event idx, For node, iterable)
         tries = []              # stack of Try nodes
+        hex_names = {'bin2hex'}
         for i, ev in enumerate(path.events):
             k = ev[0]
             raw = ev[1] if k in ('value', 'expr', 'with') and isinstance(ev[1], tuple) else None
@@ -311,6 +361,9 @@ class PathEvents:
                     self.add('EXCEPT', i, ev[2], handler=ev[1], **ctx)
             elif k == 'swallowed':
                 self.add('SWALLOWED', i, ev[2], handler=ev[1], **ctx)
+            elif k == 'import' and re.search(r'\bbin2hex\s+as\s+(\w+)', ev[1]):
+                hex_names.add(re.search(r'\bbin2hex\s+as\s+(\w+)', ev[1]).group(1))       # from intelhex import bin2hex as <alias>
+                self.add('IMPORT', i, ev[2], text=ev[1], **ctx)
             elif k == 'import':
                 self.add('IMPORT', i, ev[2], text=ev[1], **ctx)
             elif k == 'raise':
@@ -332,7 +385,7 @@ class PathEvents:
                     handles[raw] = e
             elif k in ('value', 'expr') and v[0] == 'call' and v[1] == 'assemble':
                 self.add('ASM', i, ev[2], value=raw, pos=v[2], kw=dict(v[3]), **ctx)
-            elif k in ('value', 'expr') and v[0] == 'call' and v[1].split('.')[-1] == 'bin2hex':
+            elif k in ('value', 'expr') and v[0] == 'call' and v[1].split('.')[-1] in hex_names:
                 self.add('HEX', i, ev[2], pos=v[2], kw=dict(v[3]), **ctx)
             elif k in ('value', 'expr') and v[0] == 'call' and v[1] == 'print' and 'file' in dict(v[3]):
                 h = dict(v[3])['file']
@@ -385,6 +438,8 @@ class CliModel:
         if fn is None:
             raise AnalysisError('anchor vanished: asm.{}'.format(fn_name))
         self.fn = fn
+        MODULE_CONSTS.clear()
+        MODULE_CONSTS.update({k: v for k, v in facts.consts.items() if isinstance(v, str)})
         self.walker = CliWalker(facts)
         self.paths = self.walker.run(fn.body, PathState())
         self.models = []
